@@ -1,6 +1,6 @@
 (* C02 — no double spend or double resolution. *)
 From Coq Require Import ZArith List Bool.
-From Sia Require Import Prim.Result Prim.Tok Policy.Model Ledger.Types Ledger.Mid Ledger.Validate Ledger.Apply Ledger.Proofs Ledger.Spends Ledger.SpendsV1 Ledger.SpendsSF Ledger.Persist Ledger.Marks1 Ledger.Marks2 Ledger.Marks3 Ledger.Marks4 Ledger.Marks5 Ledger.Marks6 Ledger.Marks7 Ledger.Marks8 Ledger.Marks9 Ledger.Marks10 Ledger.Persist1.
+From Sia Require Import Prim.Result Prim.Tok Policy.Model Ledger.Types Ledger.Mid Ledger.Validate Ledger.Apply Ledger.Proofs Ledger.Spends Ledger.SpendsV1 Ledger.SpendsSF Ledger.Persist Ledger.Marks1 Ledger.Marks2 Ledger.Marks3 Ledger.Marks4 Ledger.Marks5 Ledger.Marks6 Ledger.Marks7 Ledger.Marks8 Ledger.Marks9 Ledger.Marks10 Ledger.Persist1 Ledger.Kinds Ledger.Fresh.
 Import ListNotations.
 Open Scope Z_scope.
 
@@ -240,3 +240,14 @@ Theorem C02_history_no_reuse_v1 : forall H net vt pt se sd s bs s' k, chain_all 
   (forall p, In p (b_expiring b) -> Z.to_nat (p_leaf (fst p)) <> k).
 Proof. exact chain_all_no_reuse_v1. Qed.
 Print Assumptions C02_history_no_reuse_v1.
+
+(* the siacoin marking theorem with decidable checks of the block in place of its hypotheses: [consistent (declsB b)] (no ID is
+   declared with two kinds) and [fresh_sc b] (nothing is created under the ID of a consumed siacoin element, and inputs with
+   the same parent ID present the same leaf). Harness and model evaluate both checks on every applied block. *)
+Theorem C02_consumed_leaf_marked_checked : forall H net vt pt se sd s b s' m t0 i0,
+  validate_block H net vt pt se sd s b = Ok tt -> apply_block net s b = Ok (s', m) -> b_txns b = [] -> b_expiring b = [] ->
+  consistent (declsB b) = true -> fresh_sc b = true ->
+  In t0 (b_v2txns b) -> In i0 (t2_sci t0) -> p_leaf (i2_parent i0) <> UNASSIGNED ->
+  SpentAt (s_leaves s') (Z.to_nat (p_leaf (i2_parent i0))).
+Proof. exact consumed_marked_checked. Qed.
+Print Assumptions C02_consumed_leaf_marked_checked.
